@@ -278,6 +278,32 @@ def gen_core(ctx):
     for label, kw, count, plain in plan:
         for _ in range(count):
             out.append((label, G.make_instance(rng, **kw), plain))
+    # value dimensions the main classes do not reach: large / odd qualities (incl. the >= 256 code path), large
+    # recombination costs, hard (zero) priors, 7-8 active reads, positions=None, the empty read set
+    for _ in range(ctx.n(10, 150)):
+        out.append(("single-quals", G.make_instance(rng, nind=1, trios=(), max_reads=4, max_cols=5,
+                                                    quals=[1, 2, 40, 60, 93, 255, 256, 300, 10, 0],
+                                                    recomb_choices=(0, 46, 60, 100, 1000)), False))
+    for _ in range(ctx.n(3, 40)):
+        out.append(("trio-quals", G.make_instance(rng, nind=3, trios=trio, max_reads=3, max_cols=3, prior_mode="nice",
+                                                  quals=[1, 40, 60, 256, 300, 10], recomb_choices=(46, 60, 100, 1000)), False))
+    for _ in range(ctx.n(10, 150)):
+        out.append(("single-zero-prior", G.make_instance(rng, nind=1, trios=(), max_reads=4, max_cols=5, prior_mode="zero"), False))
+    for _ in range(ctx.n(4, 60)):
+        out.append(("single-wide", G.make_instance(rng, nind=1, trios=(), min_reads=7, max_reads=8, min_cols=2, max_cols=3,
+                                                   quals=nice["quals"], prior_mode="nice"), False))
+    out.append(("empty", {"ncols": 0, "nind": 1, "trios": [], "reads": [], "priors": [[]], "recomb": []}, False))
+    out.append(("empty", {"ncols": 0, "nind": 3, "trios": [[0, 1, 2]], "reads": [], "priors": [[], [], []], "recomb": []}, False))
+    # pedigree roles in every order; positions=None where every column is covered
+    res = []
+    for label, inst, plain in out:
+        if inst["trios"] and rng.random() < 0.7:
+            inst = G.permute_individuals(rng, inst)
+        covered = {v[0] for r in inst["reads"] for v in r["vars"]}
+        if inst["reads"] and len(covered) == inst["ncols"] and rng.random() < 0.3:
+            inst = dict(inst, positions_none=True)
+        res.append((label, inst, plain))
+    out = res
     # long matrices (9-20 columns) with non-uniform coverage profiles: check-pointing with re-computation
     for _ in range(ctx.n(30, 600)):
         out.append(("single-profile", G.make_profile_instance(rng, nind=1, trios=()), False))
@@ -310,6 +336,8 @@ def check_core(ctx, labelled, tag="core"):
         term = case_term(inst, r["ok"])
         cost = cost_estimate(inst)
         ctx.tally(f"{tag}.checkpoint-profile", 1 if G.checkpoint_profile(inst) else 0)
+        for key, v in G.shape_tallies(inst).items():
+            ctx.tally(f"{tag}.shape.{key}", v)
         nr = len(inst["reads"])
         if nr <= (5 if label.endswith("-profile") else 8) and not (label == "trio-profile" and nr > 3):
             checks = [("L2", cost), ("L1chain", cost * (1 + 2 ** max(0, nr - 6) // 8)), ("L1sum", 1)]
